@@ -13,13 +13,14 @@ use serde::{Deserialize, Serialize};
 pub(crate) struct CommitmentBuilder<'a> {
     pub(crate) commitment: G1Projective,
     pub(crate) statement: &'a CommitmentStatement<G1Projective>,
-    pub(crate) b: Scalar,
     pub(crate) r: Scalar,
+    /// The Pedersen blinding factor of the commitment, independent of every Schnorr nonce
+    pub(crate) blinding: Scalar,
 }
 
 impl<S: ShortGroupSignatureScheme> PresentationBuilder<S> for CommitmentBuilder<'_> {
     fn gen_proof(self, challenge: Scalar) -> PresentationProofs<S> {
-        let blinder_proof = self.r + challenge * self.b;
+        let blinder_proof = self.r + challenge * self.blinding;
         CommitmentProof {
             id: self.statement.id.clone(),
             commitment: self.commitment,
@@ -39,7 +40,11 @@ impl<'a> CommitmentBuilder<'a> {
         transcript: &mut Transcript,
     ) -> CredxResult<Self> {
         let r = Scalar::random(&mut rng);
-        let commitment = statement.message_generator * message + statement.blinder_generator * b;
+        // `b` is the claim's shared Schnorr nonce: it is published as part of the response b + c * m,
+        // so it must not double as the blinding factor of the commitment
+        let blinding = Scalar::random(&mut rng);
+        let commitment =
+            statement.message_generator * message + statement.blinder_generator * blinding;
         let blind_commitment = statement.message_generator * b + statement.blinder_generator * r;
 
         transcript.append_message(b"", statement.id.as_bytes());
@@ -54,8 +59,8 @@ impl<'a> CommitmentBuilder<'a> {
         Ok(Self {
             commitment,
             statement,
-            b,
             r,
+            blinding,
         })
     }
 }
